@@ -108,6 +108,13 @@ class C04(Prop):
         missing = [(u[1], u[2]) for u in uniq] + [(a[1], a[2]) for a in amb]
         if rng.random() < 0.3:
             missing += rng.sample(UNKNOWN, 1)
+        # bare package names that the database knows only through dotted / from-entries (`import pa.s1`,
+        # `from pa.s1 import h`, `from pc.sub.deep import d`): there is NO import for the bare name, so reading
+        # `pa.K` must stay unfixed (no guessing from derived parent-package entries)
+        uniq_names = {u[1] for u in uniq}
+        for pkg in ("pa", "pc", "pb"):
+            if pkg not in uniq_names and any((" " + pkg + ".") in (" " + k) for k in known) and rng.random() < 0.5:
+                missing.append((pkg, "mod:" + pkg))
         text = G.gen_program(rng, missing_names=missing)
         mand = ["from __future__ import annotations"] if rng.random() < 0.15 else []
         case = dict(text=text, tool="tidy", params=R.gen_params(rng), known=known, mandatory=mand,
